@@ -29,25 +29,34 @@ theorem moveBefore_nodes (ch : Chain) (A L R post : List Nat) (y : Nat)
 
 variable {cmp : Nat → Nat → Int}
 
+/-- the fast-forward loops of `merge` dereference only nodes of the chain -/
+theorem walk_check (n p k : Nat) (h : p + k < n) :
+    (decide (k = 0) || (Chain.walkNext n (some p) (k - 1)).valid n) = true := by
+  by_cases hk : k = 0
+  · simp [hk]
+  · rw [walkNext_some _ _ _ (by omega)]; simp [Ptr.valid, hk]; omega
+
 theorem mergeLoop_spec (hc : CmpPreorder cmp) (lSize rSize s : Nat) (hle : lSize ≤ rSize) (hl0 : 0 < lSize) :
-    ∀ (fuel : Nat) (A Lr Rr post : List Nat) (ch : Chain) (left right : Ptr) (lc rc : Nat),
+    ∀ (fuel : Nat) (A Lr Rr post : List Nat) (ch : Chain) (left right : Ptr) (lc rc : Nat) (m : Mem),
       ch.nodes = A ++ Lr ++ Rr ++ post → s ≤ A.length → Rr ≠ [] →
       lc + Lr.length = lSize → rc + Rr.length = rSize → A.length - s = lc + rc →
       left = some s → (A.length = s → right = some (s + lSize)) → Lr.length + Rr.length ≤ fuel →
-      ∃ ch', mergeLoop cmp lSize rSize fuel (A.length - s) lc rc (some A.length) (some (A.length + Lr.length)) ch left right
-          = (ch', some s, some (s + lSize + rSize - 1)) ∧
-        ch'.nodes = A ++ merge Lr Rr (leOf cmp) ++ post ∧ ch'.size = ch.size
-  | 0, A, Lr, Rr, post, ch, left, right, lc, rc, _, _, hR, _, _, _, _, _, hf => by
+      ∃ ch', mergeLoop cmp lSize rSize fuel (A.length - s) lc rc (some A.length) (some (A.length + Lr.length)) ch left right m
+          = (ch', some s, some (s + lSize + rSize - 1), m) ∧
+        ch'.nodes = A ++ merge Lr Rr (leOf cmp) ++ post ∧ ch'.size = ch.size ∧ ch'.triple = ch.triple
+  | 0, A, Lr, Rr, post, ch, left, right, lc, rc, m, _, _, hR, _, _, _, _, _, hf => by
     cases Rr with
     | nil => exact absurd rfl hR
     | cons y R => simp at hf
-  | fuel + 1, A, Lr, Rr, post, ch, left, right, lc, rc, hn, hs, hR, hlc, hrc, hi, hleft, hright, hf => by
+  | fuel + 1, A, Lr, Rr, post, ch, left, right, lc, rc, m, hn, hs, hR, hlc, hrc, hi, hleft, hright, hf => by
     obtain ⟨y, R, rfl⟩ : ∃ y R, Rr = y :: R := by
       cases Rr with
       | nil => exact absurd rfl hR
       | cons y R => exact ⟨y, R, rfl⟩
     have hlen : ch.nodes.length = A.length + Lr.length + (R.length + 1) + post.length := by
       rw [hn]; simp; omega
+    have hvA : Ptr.valid ch.nodes.length (some A.length) = true := by simp [Ptr.valid]; omega
+    have hvB : Ptr.valid ch.nodes.length (some (A.length + Lr.length)) = true := by simp [Ptr.valid]; omega
     have hry : ch.data (some (A.length + Lr.length)) = y := by
       simp only [Chain.data, Ptr.pos, Option.getD_some, hn]
       have e1 : A ++ Lr ++ y :: R ++ post = (A ++ Lr) ++ y :: (R ++ post) := by simp
@@ -58,35 +67,37 @@ theorem mergeLoop_spec (hc : CmpPreorder cmp) (lSize rSize s : Nat) (hle : lSize
       have hc0 : cmp y y ≤ 0 := by have := hc.le_refl y; simpa [leOf] using this
       have hly : ch.data (some A.length) = y := by simpa using hry
       have hlc' : lc = lSize := by simpa using hlc
-      simp only [List.length_cons, List.length_nil, Nat.add_zero] at hrc hlen
+      simp only [List.length_cons, List.length_nil, Nat.add_zero] at hrc hlen hvB
       have hi0 : ¬ (A.length - s = 0 ∧ rSize + lSize = 2) := by
         intro hh; omega
-      simp only [mergeLoop, List.length_nil, Nat.add_zero, hly, hc0, if_true, hi0, if_false, hlc']
-      refine ⟨ch, ?_, by rw [hn]; simp, rfl⟩
-      rw [walkNext_some _ _ _ (by rw [hlen]; omega)]
-      congr 2; congr 1
-      simp only [List.length_nil] at hi hlc; omega
+      simp only [mergeLoop, List.length_nil, Nat.add_zero, hly, hc0, if_true, hi0, if_false, hlc', hvA,
+        Bool.and_self, Mem.check_true]
+      refine ⟨ch, ?_, by rw [hn]; simp, rfl, rfl⟩
+      rw [walk_check _ _ _ (by rw [hlen]; omega), Mem.check_true, walkNext_some _ _ _ (by rw [hlen]; omega)]
+      simp only [List.length_nil] at hi hlc
+      simp only [Prod.mk.injEq, Option.some.injEq, true_and, and_true]; first | omega | (constructor <;> omega)
     | cons x L =>
       have hlx : ch.data (some A.length) = x := by
         simp only [Chain.data, Ptr.pos, Option.getD_some, hn]
         have e1 : A ++ x :: L ++ y :: R ++ post = A ++ x :: (L ++ y :: R ++ post) := by simp
         rw [e1, getD_append_length]
-      simp only [List.length_cons] at hlc hrc hf hlen hry
+      simp only [List.length_cons] at hlc hrc hf hlen hry hvB
       rw [List.cons_merge_cons]
       by_cases hxy : cmp x y ≤ 0
       · -- the left node stays
         have hle' : leOf cmp x y = true := by simp [leOf, hxy]
-        simp only [mergeLoop, hlx, List.length_cons, hry, hxy, if_true, hle']
+        simp only [mergeLoop, hlx, List.length_cons, hry, hxy, if_true, hle', hvA, hvB, Bool.and_self, Mem.check_true]
         by_cases h2 : A.length - s = 0 ∧ rSize + lSize = 2
         · -- first `break`: two nodes already in order
           rw [if_pos h2]
           have hL : L = [] := by cases L with | nil => rfl | cons _ _ => simp at hlc; omega
           have hRn : R = [] := by cases R with | nil => rfl | cons _ _ => simp at hrc; omega
           subst hL hRn
-          refine ⟨ch, ?_, by rw [hn]; simp, rfl⟩
+          refine ⟨ch, ?_, by rw [hn]; simp, rfl, rfl⟩
           have hA : A.length = s := by omega
           rw [hleft, hright hA]
-          congr 2; congr 1; simp at hlc hrc; omega
+          simp at hlc hrc
+          simp only [Prod.mk.injEq, Option.some.injEq, true_and, and_true]; first | omega | (constructor <;> omega)
         · rw [if_neg h2, if_neg (by omega)]
           have hnx : Ptr.next ch.nodes.length (some A.length) = some ((A ++ [x]).length) := by
             simp only [Ptr.next, List.length_append, List.length_cons, List.length_nil]
@@ -96,14 +107,15 @@ theorem mergeLoop_spec (hc : CmpPreorder cmp) (lSize rSize s : Nat) (hle : lSize
           have hidx : A.length - s + 1 = (A ++ [x]).length - s := by simp; omega
           rw [hnx, hrp, hidx]
           obtain ⟨ch', e, h1, h2'⟩ := mergeLoop_spec hc lSize rSize s hle hl0 fuel (A ++ [x]) L (y :: R) post ch left right
-            (lc + 1) rc (by rw [hn]; simp) (by simp; omega) (by simp) (by omega) (by simpa using hrc)
+            (lc + 1) rc m (by rw [hn]; simp) (by simp; omega) (by simp) (by omega) (by simpa using hrc)
             (by simp; omega) hleft (by intro hh; simp at hh; omega) (by simp; omega)
           exact ⟨ch', e, by rw [h1]; simp, h2'⟩
       · -- the right node is relinked in front of the left cursor
         have hle' : ¬ leOf cmp x y = true := by simp [leOf, hxy]
         have hmv := moveBefore_nodes ch A (x :: L) R post y (by rw [hn])
         simp only [List.length_cons] at hmv
-        simp only [mergeLoop, hlx, List.length_cons, hry, hxy, if_false, hle', Ptr.pos, Option.getD_some]
+        simp only [mergeLoop, hlx, List.length_cons, hry, hxy, if_false, hle', Ptr.pos, Option.getD_some, hvA, hvB,
+          Bool.and_self, Mem.check_true]
         have hlp' : Ptr.movePtr (A.length + (L.length + 1)) A.length (some A.length) = some (A.length + 1) := by
           simp only [Ptr.movePtr]; rw [if_neg (by omega), if_pos (by omega)]
         have hrp' : Ptr.movePtr (A.length + (L.length + 1)) A.length (some (A.length + (L.length + 1))) = some A.length := by
@@ -117,8 +129,9 @@ theorem mergeLoop_spec (hc : CmpPreorder cmp) (lSize rSize s : Nat) (hle : lSize
           subst hL hRn
           have hA : A.length = s := by omega
           simp only [List.length_nil] at hmv hlc hrc ⊢
-          refine ⟨ch.moveBefore (A.length + (0 + 1)) A.length, ?_, by rw [hmv.1]; simp [hle'], hmv.2⟩
-          rw [hA]; congr 2; congr 1; omega
+          refine ⟨ch.moveBefore (A.length + (0 + 1)) A.length, ?_, by rw [hmv.1]; simp [hle'], hmv.2, rfl⟩
+          rw [hA]
+          simp only [Prod.mk.injEq, Option.some.injEq, true_and, and_true]; first | omega | (constructor <;> omega)
         · rw [if_neg h2]
           by_cases hr : rc + 1 = rSize
           · -- third `break`: the right run is used up
@@ -128,14 +141,14 @@ theorem mergeLoop_spec (hc : CmpPreorder cmp) (lSize rSize s : Nat) (hle : lSize
             have hipos : A.length ≠ s := by
               intro hA; apply h2; refine ⟨by omega, ?_⟩
               simp only [List.length_nil] at hrc; omega
-            refine ⟨ch.moveBefore (A.length + (L.length + 1)) A.length, ?_, by rw [hmv.1]; simp, hmv.2⟩
-            rw [walkNext_some _ _ _ (by rw [hlen]; simp; omega)]
+            refine ⟨ch.moveBefore (A.length + (L.length + 1)) A.length, ?_, by rw [hmv.1]; simp, hmv.2, rfl⟩
+            rw [walk_check _ _ _ (by rw [hlen]; simp; omega), Mem.check_true, walkNext_some _ _ _ (by rw [hlen]; simp; omega)]
             rw [hleft]
             have hl : Ptr.movePtr (A.length + (L.length + 1)) A.length (some s) = some s := by
               simp only [Ptr.movePtr]; rw [if_neg (by omega), if_neg (by omega)]
             rw [hl]
-            congr 2; congr 1
-            simp only [List.length_nil] at hrc; omega
+            simp only [List.length_nil] at hrc
+            simp only [Prod.mk.injEq, Option.some.injEq, true_and, and_true]; first | omega | (constructor <;> omega)
           · rw [if_neg hr]
             have hRne : R ≠ [] := by intro e; subst e; simp at hrc; omega
             have htmp : Ptr.movePtr (A.length + (L.length + 1)) A.length
@@ -159,59 +172,63 @@ theorem mergeLoop_spec (hc : CmpPreorder cmp) (lSize rSize s : Nat) (hle : lSize
             rw [e3]
             obtain ⟨ch', e, h1, h2'⟩ := mergeLoop_spec hc lSize rSize s hle hl0 fuel (A ++ [y]) (x :: L) R post
               (ch.moveBefore (A.length + (L.length + 1)) A.length) (some s)
-              (Ptr.movePtr (A.length + (L.length + 1)) A.length right) lc (rc + 1)
+              (Ptr.movePtr (A.length + (L.length + 1)) A.length right) lc (rc + 1) m
               (by rw [hmv.1]) (by simp only [List.length_append, List.length_cons, List.length_nil]; omega) hRne (by simpa using hlc) (by omega)
               (by simp only [List.length_append, List.length_cons, List.length_nil]; omega) rfl
               (by intro hh; simp at hh; omega) (by simp; omega)
-            exact ⟨ch', e, by rw [h1]; simp, by rw [h2', hmv.2]⟩
+            exact ⟨ch', e, by rw [h1]; simp, by rw [h2'.1, hmv.2], by rw [h2'.2]; rfl⟩
 
-theorem splitC_spec (hc : CmpPreorder cmp) : ∀ (fuel : Nat) (ch : Chain) (pre seg post : List Nat) (s size : Nat),
+theorem splitC_spec (hc : CmpPreorder cmp) : ∀ (fuel : Nat) (ch : Chain) (pre seg post : List Nat) (s size : Nat) (m : Mem),
     ch.nodes = pre ++ seg ++ post → pre.length = s → seg.length = size → 1 ≤ size → size ≤ fuel →
-    ∃ ch', splitC cmp fuel ch (some s) size = (ch', some s) ∧ ch'.nodes = pre ++ msort cmp fuel seg ++ post ∧
-      ch'.size = ch.size ∧ (2 ≤ size → ch'.head = some s ∧ ch'.tail = some (s + size - 1))
-  | 0, ch, pre, seg, post, s, size, _, _, _, h1, hf => by omega
-  | fuel + 1, ch, pre, seg, post, s, size, hn, hp, hsz, h1, hf => by
+    ∃ ch', splitC cmp fuel ch (some s) size m = (ch', some s, m) ∧ ch'.nodes = pre ++ msort cmp fuel seg ++ post ∧
+      ch'.size = ch.size ∧ ch'.triple = ch.triple ∧ (2 ≤ size → ch'.head = some s ∧ ch'.tail = some (s + size - 1))
+  | 0, ch, pre, seg, post, s, size, m, _, _, _, h1, hf => by omega
+  | fuel + 1, ch, pre, seg, post, s, size, m, hn, hp, hsz, h1, hf => by
     by_cases h2 : size < 2
-    · refine ⟨ch, by simp [splitC, h2], ?_, rfl, by omega⟩
+    · refine ⟨ch, by simp [splitC, h2], ?_, rfl, rfl, by omega⟩
       rw [msort_short _ _ (by omega), hn]
     · have hl1 : 1 ≤ size / 2 := by omega
       have hr1 : 1 ≤ size / 2 + size % 2 := by omega
       have hsum : size / 2 + (size / 2 + size % 2) = size := by omega
-      simp only [splitC, h2, if_false]
+      have hlenn : ch.nodes.length = s + size + post.length := by rw [hn]; simp [hp, hsz]; omega
+      have hck : (Chain.walkNext ch.nodes.length (some s) (size / 2 - 1)).valid ch.nodes.length = true := by
+        rw [walkNext_some _ _ _ (by rw [hlenn]; omega)]; simp [Ptr.valid]; omega
+      simp only [splitC, h2, if_false, hck, Mem.check_true]
       -- the left run
-      obtain ⟨ch1, e1, n1, s1, _⟩ := splitC_spec hc fuel ch pre (seg.take (size / 2)) (seg.drop (size / 2) ++ post) s (size / 2)
+      obtain ⟨ch1, e1, n1, s1, t1, _⟩ := splitC_spec hc fuel ch pre (seg.take (size / 2)) (seg.drop (size / 2) ++ post) s (size / 2) m
         (by rw [hn]; simp only [List.append_assoc]; rw [← List.append_assoc (take _ seg), List.take_append_drop]) hp (by rw [List.length_take]; omega) hl1 (by omega)
       -- `center`
-      have hlenn : ch.nodes.length = s + size + post.length := by rw [hn]; simp [hp, hsz]; omega
       rw [walkNext_some _ _ _ (by rw [hlenn]; omega), e1]
       -- the right run
       have hL : (msort cmp fuel (seg.take (size / 2))).length = size / 2 := by
         rw [msort_length, List.length_take]; omega
       have hR : (msort cmp fuel (seg.drop (size / 2))).length = size / 2 + size % 2 := by
         rw [msort_length, List.length_drop]; omega
-      obtain ⟨ch2, e2, n2, s2, _⟩ := splitC_spec hc fuel ch1 (pre ++ msort cmp fuel (seg.take (size / 2))) (seg.drop (size / 2)) post
-        (s + size / 2) (size / 2 + size % 2)
+      obtain ⟨ch2, e2, n2, s2, t2, _⟩ := splitC_spec hc fuel ch1 (pre ++ msort cmp fuel (seg.take (size / 2))) (seg.drop (size / 2)) post
+        (s + size / 2) (size / 2 + size % 2) m
         (by rw [n1]; simp) (by simp [hp, hL]) (by rw [List.length_drop]; omega) hr1 (by omega)
       simp only [e2]
       -- the merge
       have hRne : msort cmp fuel (seg.drop (size / 2)) ≠ [] := by
         intro e; rw [e] at hR; simp at hR; omega
-      obtain ⟨ch3, e3, n3, s3⟩ := mergeLoop_spec hc (size / 2) (size / 2 + size % 2) s (by omega) hl1
+      obtain ⟨ch3, e3, n3, s3, t3⟩ := mergeLoop_spec hc (size / 2) (size / 2 + size % 2) s (by omega) hl1
         (size / 2 + size % 2 + size / 2) pre (msort cmp fuel (seg.take (size / 2))) (msort cmp fuel (seg.drop (size / 2))) post
-        ch2 (some s) (some (s + size / 2)) 0 0
+        ch2 (some s) (some (s + size / 2)) 0 0 m
         (by rw [n2]) (by omega) hRne (by omega) (by omega) (by omega) rfl (fun _ => rfl) (by omega)
       rw [hp, Nat.sub_self, hL] at e3
       rw [e3]
-      refine ⟨_, rfl, ?_, by simp only []; rw [s3, s2, s1], ?_⟩
+      refine ⟨_, rfl, ?_, by simp only []; rw [s3, s2, s1], by simp only []; rw [t3, t2, t1], ?_⟩
       · simp only []
         rw [n3]
         simp only [msort, hsz, h2, if_false]
         rfl
       · intro _; exact ⟨rfl, by simp only []; congr 1; omega⟩
 
-/-- **the code-level sort is the specification-level sort**, for every total-preorder comparator
-and every list state satisfying the invariant -/
-theorem sortInPlaceC_eq (hc : CmpPreorder cmp) (l : Chain) (h : l.Inv) : sortInPlaceC cmp l = sortInPlace cmp l := by
+/-- **the code-level sort is the specification-level sort and dereferences no invalid pointer**, for
+every total-preorder comparator and every list state satisfying the invariant; the ledger comes back
+untouched (no allocator call, no fault) -/
+theorem sortInPlaceC_eq (hc : CmpPreorder cmp) (l : Chain) (h : l.Inv) (m : Mem) :
+    sortInPlaceC cmp l m = (sortInPlace cmp l, m) := by
   rw [h.eq, sortInPlace_ofList]
   unfold sortInPlaceC
   simp only [ofList_size]
@@ -222,13 +239,13 @@ theorem sortInPlaceC_eq (hc : CmpPreorder cmp) (l : Chain) (h : l.Inv) : sortInP
     | 1 => simp [splitC]
     | n + 2 => omega
   · have h0 : l.abs.length ≠ 0 := by omega
-    have hh : (ofList l.abs).head = some 0 := by simp [ofList, h0]
-    obtain ⟨ch', e, n1, s1, ht⟩ := splitC_spec hc l.abs.length (ofList l.abs) [] l.abs [] 0 l.abs.length
+    have hh : (ofList l.triple l.abs).head = some 0 := by simp [ofList, h0]
+    obtain ⟨ch', e, n1, s1, t1, ht⟩ := splitC_spec hc l.abs.length (ofList l.triple l.abs) [] l.abs [] 0 l.abs.length m
       (by simp) rfl rfl (by omega) (Nat.le_refl _)
     rw [hh, e]
     obtain ⟨hhd, htl⟩ := ht (by omega)
     cases ch'
     simp only [ofList, msort_length, h0, if_false] at *
-    simp [n1, s1, hhd, htl]
+    simp [n1, s1, t1, hhd, htl]
 
 end CC.DList
